@@ -536,20 +536,256 @@ Proof.
         apply valid_key_lower; [exact Hvk|]. unfold is_reserved in Hr. apply orb_false_iff in Hr. tauto.
 Qed.
 
-Theorem rpc_faithful auth md calls h t :
-  valid_user md calls = true -> has_hop md calls = false ->
-  all_bytes (user_pairs md calls) -> all_bytes (pairs_of h) -> all_bytes (pairs_of t) ->
-  rpc auth md calls h t = expect_ok auth md calls h t.
+(* ---------- valid metadata passes the peer's framer ---------- *)
+
+Lemma key_char_wire c : key_char c = true -> wire_name_char c = true.
 Proof.
-  intros Hv Hh Hb Hbh Hbt. unfold rpc, expect_ok.
+  unfold key_char, wire_name_char. intro H.
+  repeat (apply orb_true_iff in H as [H|H]).
+  - rewrite H. reflexivity.
+  - rewrite H. apply orb_true_iff. left. apply orb_true_r.
+  - apply Z.eqb_eq in H. subst. reflexivity.
+  - apply Z.eqb_eq in H. subst. reflexivity.
+  - apply Z.eqb_eq in H. subst. reflexivity.
+Qed.
+
+Lemma valid_key_wire k : validate_key k = true -> is_pseudo k = false -> wire_name_ok k = true.
+Proof.
+  unfold validate_key, is_pseudo, wire_name_ok. destruct k as [|c r]; [discriminate|]. intros H Hp.
+  rewrite Hp in H. unfold is_pseudo. rewrite Hp. cbn [orb andb].
+  induction (c :: r) as [|x l IH]; cbn [forallb] in *; [reflexivity|].
+  apply andb_true_iff in H as [H1 H2]. rewrite (key_char_wire _ H1), IH by exact H2. reflexivity.
+Qed.
+
+Lemma printable_wire v : printable v = true -> wire_value_ok v = true.
+Proof.
+  unfold printable, wire_value_ok. induction v as [|c v IH]; cbn [forallb]; [reflexivity|].
+  intro H. apply andb_true_iff in H as [H1 H2]. rewrite IH by exact H2.
+  apply andb_true_iff in H1 as [Ha Hb]. apply Z.leb_le in Ha, Hb.
+  destruct (Z.ltb_spec c 32); [lia|]. destruct (Z.eqb_spec c 127); [lia|]. reflexivity.
+Qed.
+
+Lemma b64char_wire s : 0 <= s < 64 -> 43 <= b64char s <= 122.
+Proof.
+  intro H. unfold b64char.
+  destruct (Z.ltb_spec s 26); [lia|]. destruct (Z.ltb_spec s 52); [lia|].
+  destruct (Z.ltb_spec s 62); [lia|]. destruct (Z.eqb_spec s 62); lia.
+Qed.
+
+Definition b64_range (c : Z) : bool := (43 <=? c) && (c <=? 122).
+
+Lemma enc64_range v : bytes v -> forallb b64_range (enc64 v) = true.
+Proof.
+  assert (R: forall s, 0 <= s < 64 -> b64_range (b64char s) = true).
+  { intros s Hs. pose proof (b64char_wire s Hs). unfold b64_range.
+    apply andb_true_iff. split; apply Z.leb_le; lia. }
+  unfold bytes. induction v as [| a | a b | a b c r IH] using list_ind3; intro H.
+  - reflexivity.
+  - inversion H; subst. destruct (arith3 a 0 0 ltac:(assumption) ltac:(lia) ltac:(lia)) as (R1 & R2 & _).
+    change (0 / 16) with 0 in *. rewrite Z.add_0_r in *.
+    cbn [enc64 forallb]. rewrite !R by assumption. reflexivity.
+  - inversion H as [|? ? Ha H']; subst. inversion H'; subst.
+    destruct (arith3 a b 0 Ha ltac:(assumption) ltac:(lia)) as (R1 & R2 & R3 & _).
+    change (0 / 64) with 0 in *. rewrite Z.add_0_r in *.
+    cbn [enc64 forallb]. rewrite !R by assumption. reflexivity.
+  - inversion H as [|? ? Ha H1]; subst. inversion H1 as [|? ? Hb H2]; subst. inversion H2 as [|? ? Hc H3]; subst.
+    destruct (arith3 a b c Ha Hb Hc) as (R1 & R2 & R3 & R4 & _).
+    cbn [enc64 forallb]. rewrite !R by assumption. rewrite (IH H3). reflexivity.
+Qed.
+
+Lemma b64_range_wire l : forallb b64_range l = true -> wire_value_ok l = true.
+Proof.
+  unfold wire_value_ok, b64_range. induction l as [|c l IH]; cbn [forallb]; [reflexivity|].
+  intro H. apply andb_true_iff in H as [H1 H2]. rewrite IH by exact H2.
+  apply andb_true_iff in H1 as [Ha Hb]. apply Z.leb_le in Ha, Hb.
+  destruct (Z.ltb_spec c 32); [lia|]. destruct (Z.eqb_spec c 127); [lia|]. reflexivity.
+Qed.
+
+Lemma md_fields_frame_ok m : validate_md m = true -> all_bytes (pairs_of m) -> frame_ok (md_fields m) = true.
+Proof.
+  intros Hv Hb. unfold frame_ok. apply forallb_forall. intros f Hf.
+  unfold md_fields in Hf. apply in_flat_map in Hf as (e & He & Hf).
+  destruct (is_reserved (fst e)) eqn:Er; [destruct Hf|].
+  apply in_map_iff in Hf as (v & <- & Hv'). cbn [fst snd].
+  unfold validate_md in Hv. rewrite forallb_forall in Hv. specialize (Hv e He).
+  unfold validate_pair in Hv. apply andb_true_iff in Hv as [Hk Hvals].
+  assert (Hp: is_pseudo (fst e) = false) by (unfold is_reserved in Er; apply orb_false_iff in Er; tauto).
+  rewrite (valid_key_wire _ Hk Hp). cbn [andb].
+  unfold encode_hdr. destruct (ends_bin (fst e)) eqn:Eb.
+  - apply b64_range_wire, enc64_range.
+    apply (Hb (fst e, v)). unfold pairs_of. apply in_flat_map. exists e. split; [exact He|].
+    apply in_map. exact Hv'.
+  - cbn [orb] in Hvals. rewrite forallb_forall in Hvals. apply printable_wire, Hvals, Hv'.
+Qed.
+
+Lemma header_frame_ok h : validate_md h = true -> all_bytes (pairs_of h) ->
+  frame_ok (response_header_fields h) = true.
+Proof.
+  intros Hv Hb. unfold response_header_fields, frame_ok. rewrite forallb_app.
+  fold (frame_ok (md_fields h)). rewrite (md_fields_frame_ok h Hv Hb). reflexivity.
+Qed.
+
+Lemma trailer_frame_ok t : validate_md t = true -> all_bytes (pairs_of t) ->
+  frame_ok (response_trailer_fields t) = true.
+Proof.
+  intros Hv Hb.
+  assert (E: frame_ok (response_trailer_fields t) = frame_ok (md_fields t)) by reflexivity.
+  rewrite E. apply md_fields_frame_ok; assumption.
+Qed.
+
+Theorem rpc_faithful auth mode md calls h t :
+  valid_user md calls = true -> has_hop md calls = false ->
+  validate_md h = true -> validate_md t = true ->
+  all_bytes (user_pairs md calls) -> all_bytes (pairs_of h) -> all_bytes (pairs_of t) ->
+  rpc auth mode md calls h t = expect_ok auth md calls h t.
+Proof.
+  intros Hv Hh Hvh Hvt Hb Hbh Hbt. unfold rpc, expect_ok.
   rewrite valid_user_validate_out, Hv. cbn [negb].
   destruct (srv_request auth md calls Hv Hh Hb) as [-> ->].
+  rewrite Hvh. cbn [negb]. rewrite andb_false_r.
+  rewrite (header_frame_ok h Hvh Hbh), (trailer_frame_ok t Hvt Hbt). cbn [negb].
   rewrite (cli_header h Hbh), (cli_trailer t Hbt). reflexivity.
 Qed.
 
-Theorem rpc_invalid_rejected auth md calls h t : valid_user md calls = false ->
-  rpc auth md calls h t = fail_obs 13 0 [].
+Theorem rpc_invalid_rejected auth mode md calls h t : valid_user md calls = false ->
+  rpc auth mode md calls h t = fail_obs 13 0 [].
 Proof. intro Hv. unfold rpc. rewrite valid_user_validate_out, Hv. reflexivity. Qed.
+
+(* invalid header metadata on the ServerStream path is refused *)
+Theorem stream_header_refused auth mode md calls h t :
+  valid_user md calls = true -> has_hop md calls = false -> all_bytes (user_pairs md calls) ->
+  mode <> 0 -> validate_md h = false ->
+  rpc auth mode md calls h t =
+    [13; 1; 1; 13] ++ dump (transport_md auth ++ group (visible (user_pairs md calls)))
+                   ++ dump [] ++ dump [(n_content_type, [ct_grpc])].
+Proof.
+  intros Hv Hh Hb Hm Hvh. unfold rpc.
+  rewrite valid_user_validate_out, Hv. cbn [negb].
+  destruct (srv_request auth md calls Hv Hh Hb) as [-> ->].
+  rewrite Hvh. destruct (Z.eqb_spec mode 0); [contradiction|]. reflexivity.
+Qed.
+
+(* ---------- a raw peer with plain extra fields ---------- *)
+
+Lemma wire_name_char_lower c : wire_name_char c = true -> lower_b c = c.
+Proof.
+  unfold wire_name_char, lower_b. intro H. destruct ((65 <=? c) && (c <=? 90)) eqn:E; [|reflexivity].
+  apply andb_true_iff in E as [E1 E2]. apply Z.leb_le in E1, E2. exfalso.
+  repeat (apply orb_true_iff in H as [H|H]);
+    try (apply andb_true_iff in H as [H1 H2]; apply Z.leb_le in H1, H2; lia);
+    try (apply Z.eqb_eq in H; lia); try discriminate.
+Qed.
+
+Lemma wire_chars_lower k : forallb wire_name_char k = true -> lower k = k.
+Proof.
+  unfold lower. induction k as [|c k IH]; cbn [map forallb]; [reflexivity|].
+  intro H. apply andb_true_iff in H as [H1 H2]. rewrite (wire_name_char_lower _ H1), IH by exact H2. reflexivity.
+Qed.
+
+Lemma wire_name_lower k : is_pseudo k = false -> wire_name_ok k = true -> lower k = k.
+Proof.
+  unfold wire_name_ok. intros Hp H. rewrite Hp in H. cbn [orb] in H. apply andb_true_iff in H as [_ H].
+  apply wire_chars_lower, H.
+Qed.
+
+(* the server's post-processing when the collected user pairs are not reserved, not host,
+   lower case *)
+Lemma srv_tail auth ps :
+  (forall p, In p ps -> is_reserved (fst p) = false /\ fst p <> n_host /\ lower (fst p) = fst p) ->
+  let m := transport_md auth ++ group ps in
+  fold_left add_kv ps (transport_md auth) = m /\
+  getd n_authority m = [auth] /\ getd n_host m = [] /\ del n_host m = m /\ from_in m = m.
+Proof.
+  intros Hps m.
+  assert (Hdisj: forall p, In p ps -> ~ In (fst p) (keys (transport_md auth))).
+  { intros p Hp. destruct (Hps p Hp) as (Hr & _). cbn. intros [E|[E|[E|[]]]]; rewrite <- E in Hr; discriminate. }
+  assert (Em: fold_left add_kv ps (transport_md auth) = m).
+  { unfold m. rewrite <- (app_nil_r (transport_md auth)) at 1. apply fold_add_kv_prefix, Hdisj. }
+  assert (Hkeys: forall k, In k (keys m) -> In k (keys (transport_md auth)) \/ In k (map fst ps)).
+  { intros k Hk. rewrite <- Em, keys_group_from, In_fold_add_key in Hk. exact Hk. }
+  assert (Hhost: ~ In n_host (keys m)).
+  { intro Hk. apply Hkeys in Hk as [Hk|Hk].
+    - cbn in Hk. repeat destruct Hk as [Hk|Hk]; try discriminate. destruct Hk.
+    - apply in_map_iff in Hk as (p & E & Hp). destruct (Hps p Hp) as (_ & N & _). congruence. }
+  split; [exact Em|]. split; [reflexivity|]. split.
+  { unfold getd. apply get_none_notin in Hhost. rewrite Hhost. reflexivity. }
+  split; [apply del_notin, Hhost|].
+  apply from_in_id.
+  - rewrite <- Em, keys_group_from. apply NoDup_fold_add_key.
+    cbn. repeat constructor; cbn; intuition discriminate.
+  - intros k Hk. apply Hkeys in Hk as [Hk|Hk].
+    + cbn in Hk. repeat destruct Hk as [<-|Hk]; try reflexivity. destruct Hk.
+    + apply in_map_iff in Hk as (p & <- & Hp). destruct (Hps p Hp) as (_ & _ & Hl). exact Hl.
+Qed.
+
+Lemma srv_step_plain a f : is_pseudo (fst f) = false -> raw_plain_field f = true ->
+  srv_step a f =
+  mksacc (fold_left add_kv (raw_decoded [f]) (a_md a)) (a_grpc a) (a_perr a) (a_herr a) (a_post a).
+Proof.
+  intros Hp H. unfold raw_plain_field in H. apply andb_true_iff in H as [Hex Hd].
+  apply negb_true_iff in Hex. cbn [existsb] in Hex. rewrite orb_false_r in Hex.
+  apply orb_false_iff in Hex as [E1 Hex]. apply orb_false_iff in Hex as [E2 Hex]. apply orb_false_iff in Hex as [E3 E4].
+  unfold srv_step, raw_decoded. cbn [flat_map]. rewrite app_nil_r. rewrite E1.
+  destruct (str_eqb_spec (fst f) n_grpc_accept_encoding) as [E|_].
+  { rewrite E. cbn. rewrite <- E. destruct a; reflexivity. }
+  destruct (str_eqb_spec (fst f) n_method) as [E|_]; [rewrite E in Hp; discriminate|].
+  destruct (existsb (str_eqb (fst f)) consumed_names) eqn:Ec.
+  { rewrite (consumed_reserved _ Ec). destruct a; reflexivity. }
+  rewrite E3.
+  assert (Hw: is_whitelisted (fst f) = false).
+  { unfold is_whitelisted. rewrite E2. destruct (str_eqb_spec (fst f) n_authority) as [E|_]; [rewrite E in Hp; discriminate|reflexivity]. }
+  rewrite Hw. destruct (is_reserved (fst f)) eqn:Er; cbn [andb negb orb] in *.
+  - destruct a; reflexivity.
+  - destruct (decode_hdr (fst f) (snd f)); [reflexivity|discriminate].
+Qed.
+
+Lemma raw_decoded_cons f fs : raw_decoded (f :: fs) = raw_decoded [f] ++ raw_decoded fs.
+Proof. unfold raw_decoded. cbn [flat_map]. rewrite app_nil_r. reflexivity. Qed.
+
+Lemma srv_fold_plain extra : forall a,
+  (forall f, In f extra -> is_pseudo (fst f) = false /\ raw_plain_field f = true) ->
+  fold_left srv_step extra a =
+  mksacc (fold_left add_kv (raw_decoded extra) (a_md a)) (a_grpc a) (a_perr a) (a_herr a) (a_post a).
+Proof.
+  induction extra as [|f extra IH]; intros a H; cbn [fold_left]; [destruct a; reflexivity|].
+  destruct (H f (or_introl eq_refl)) as [Hp Hpl].
+  rewrite (srv_step_plain a f Hp Hpl), IH by (intros g Hg; apply H; right; exact Hg).
+  cbn [a_md a_grpc a_perr a_herr a_post]. rewrite (raw_decoded_cons f extra), fold_left_app. reflexivity.
+Qed.
+
+Theorem raw_faithful auth extra : raw_plain extra = true -> raw_rpc auth extra = raw_expect auth extra.
+Proof.
+  intro H. unfold raw_plain in H. apply andb_true_iff in H as [Hf Hpl].
+  unfold raw_rpc, raw_expect. rewrite Hf. cbn [negb].
+  unfold raw_frame_ok in Hf. rewrite forallb_forall in Hf, Hpl.
+  assert (Hall: forall f, In f extra -> is_pseudo (fst f) = false /\ raw_plain_field f = true).
+  { intros f Hi. specialize (Hf f Hi). apply andb_true_iff in Hf as [Hf _]. apply andb_true_iff in Hf as [Hf _].
+    apply negb_true_iff in Hf. split; [exact Hf | apply Hpl, Hi]. }
+  assert (Hps: forall p, In p (raw_decoded extra) ->
+            is_reserved (fst p) = false /\ fst p <> n_host /\ lower (fst p) = fst p).
+  { intros p Hp. unfold raw_decoded in Hp. apply in_flat_map in Hp as (f & Hi & Hp).
+    destruct (is_reserved (fst f)) eqn:Er; [destruct Hp|].
+    destruct (decode_hdr (fst f) (snd f)); [|destruct Hp]. destruct Hp as [<-|[]]. cbn [fst].
+    split; [exact Er|]. split.
+    - specialize (Hpl f Hi). unfold raw_plain_field in Hpl. apply andb_true_iff in Hpl as [Hex _].
+      apply negb_true_iff in Hex. cbn [existsb] in Hex. intro E. rewrite E in Hex.
+      rewrite (str_eqb_refl n_host) in Hex. rewrite !orb_true_r in Hex. discriminate.
+    - specialize (Hf f Hi). apply andb_true_iff in Hf as [Hf _]. apply andb_true_iff in Hf as [Hp Hn].
+      apply wire_name_lower; [apply negb_true_iff, Hp | exact Hn]. }
+  destruct (srv_tail auth (raw_decoded extra) Hps) as (Em & Ea & Eh & Ed & Ei).
+  unfold srv_collect. rewrite fold_left_app, transport_fold, (srv_fold_plain extra _ Hall).
+  cbn [a_md a_grpc a_perr a_herr a_post]. rewrite Em, Ea, Eh. cbn [negb].
+  change (lenZ [auth] >? 1) with false. change (lenZ (@nil str) >? 1) with false. cbn [orb].
+  rewrite Ed, Ei. reflexivity.
+Qed.
+
+(* a peer that pads its base64: the handler sees the bytes *)
+Lemma raw_padded_example :
+  raw_rpc [97] [([107;45;98;105;110], pad64 (enc64 [0; 255; 97; 98]))] =
+    [1; 0] ++ dump (transport_md [97] ++ [([107;45;98;105;110], [[0; 255; 97; 98]])]) /\
+  raw_rpc [97] [([107;45;98;105;110], enc64 [0; 255; 97; 98])] =
+    [1; 0] ++ dump (transport_md [97] ++ [([107;45;98;105;110], [[0; 255; 97; 98]])]).
+Proof. vm_compute. split; reflexivity. Qed.
 
 (* ---------- the executable predicate holds on every model trace ---------- *)
 
@@ -570,17 +806,23 @@ Definition rpcop_ok (o : rpcop) : bool :=
   all_bytes_b (pairs_of (o_t o)) && negb (has_hop (o_md o) (o_calls o)) &&
   validate_md (o_h o) && validate_md (o_t o).
 Definition op_wf (w : word) : bool :=
-  match decode_op w with Some o => rpcop_ok o | None => false end.
+  match decode_op w with
+  | Some o => rpcop_ok o
+  | None => match decode_raw w with Some extra => raw_plain extra | None => false end
+  end.
 
 Lemma clause_op_model auth i w : op_wf w = true ->
   exists ob, run_op auth w = Some ob /\ snd (clause_op auth i w ob) = true.
 Proof.
-  unfold op_wf, run_op, clause_op. destruct (decode_op w) as [o|]; [|discriminate].
+  unfold op_wf, run_op, clause_op. destruct (decode_op w) as [o|].
+  2:{ destruct (decode_raw w) as [extra|]; [|discriminate]. intro H.
+      eexists; split; [reflexivity|]. cbn [snd]. rewrite H, (raw_faithful auth extra H). apply word_eqb_refl. }
   intro H. unfold rpcop_ok in H. repeat (apply andb_true_iff in H as [H ?]).
   eexists; split; [reflexivity|].
   destruct (valid_user (o_md o) (o_calls o)) eqn:Hv; cbn [negb].
   - assert (Hh: has_hop (o_md o) (o_calls o) = false) by (apply negb_true_iff; assumption).
-    rewrite Hh. cbn [snd].
+    rewrite Hh. match goal with Ha : validate_md (o_h o) = true, Hb : validate_md (o_t o) = true |- _ => rewrite Ha, Hb end.
+    cbn [andb snd].
     rewrite rpc_faithful by (try assumption; apply all_bytes_b_spec; assumption).
     apply word_eqb_refl.
   - rewrite rpc_invalid_rejected by exact Hv. reflexivity.
@@ -613,11 +855,31 @@ Definition md_conn : mdt := [(n_connection, [[120]])].            (* {"connectio
 
 Lemma hop_names_refuted :
   valid_user md_host1 [] = true /\ valid_user md_host2 [] = true /\ valid_user md_conn [] = true /\
-  rpc [97] md_host1 [] [] [] = expect_ok [97] [] [] [] [] /\      (* host silently dropped *)
-  rpc [97] md_host1 [] [] [] <> expect_ok [97] md_host1 [] [] [] /\
-  rpc [97] md_host2 [] [] [] = fail_obs 13 1 [(n_content_type, [ct_grpc])] /\
-  rpc [97] md_conn [] [] [] = fail_obs 13 1 [].
+  rpc [97] 0 md_host1 [] [] [] = expect_ok [97] [] [] [] [] /\      (* host silently dropped *)
+  rpc [97] 0 md_host1 [] [] [] <> expect_ok [97] md_host1 [] [] [] /\
+  rpc [97] 0 md_host2 [] [] [] = fail_obs 13 1 [(n_content_type, [ct_grpc])] /\
+  rpc [97] 0 md_conn [] [] [] = fail_obs 13 1 [].
 Proof. vm_compute. repeat split; try reflexivity. discriminate. Qed.
+
+(* ---------- server-side metadata that the API does not validate ---------- *)
+
+Definition h_hi : mdt := [([104], [[97; 128]])].      (* {"h": ["a\x80"]}: not printable ASCII *)
+Definition h_del : mdt := [([104], [[97; 127]])].     (* {"h": ["a\x7f"]} *)
+
+Lemma server_md_unvalidated_refuted :
+  validate_md h_hi = false /\ validate_md h_del = false /\
+  (* unary helper grpc.SetHeader: accepted, sent, delivered; the RPC succeeds *)
+  rpc [97] 0 [] [] h_hi [] = [0; 1; 1; 0] ++ dump (transport_md [97]) ++
+                             dump [(n_content_type, [ct_grpc]); ([104], [[97; 128]])] ++ dump [] /\
+  (* unary helper, DEL: accepted and sent; it is the client's framer that kills the RPC *)
+  rpc [97] 0 [] [] h_del [] = [13; 1; 1; 0] ++ dump (transport_md [97]) ++ dump [] ++ dump [] /\
+  (* ServerStream.SetTrailer: logged, sent, delivered *)
+  rpc [97] 1 [] [] [] h_hi = [0; 1; 1; 0] ++ dump (transport_md [97]) ++
+                             dump [(n_content_type, [ct_grpc])] ++ dump [([104], [[97; 128]])] /\
+  (* whereas ServerStream.SetHeader refuses it *)
+  rpc [97] 1 [] [] h_hi [] = [13; 1; 1; 13] ++ dump (transport_md [97]) ++ dump [] ++
+                             dump [(n_content_type, [ct_grpc])].
+Proof. vm_compute. repeat split; reflexivity. Qed.
 
 (* ---------- what [group] means: per key, the values in order ---------- *)
 
